@@ -31,6 +31,23 @@ class Stream(Family):
         for i in range(n):
             main, calls = gc.gen_wellformed_calls(rng)
             yield dict(kind='wellformed', main=main, calls=calls)
+            if i % 150 == 0:
+                # size boundaries (powers of two +-1): very large indents with lines that start with spaces; content whose
+                # multi-byte newline straddles byte 65536; a first line longer than 8192 bytes
+                lead = ' lead\n  two\n\n   \nx\n'
+                for ind in (1023, 1024, 1025, 2049):
+                    for codec in ('utf-8', 'utf-16'):
+                        yield dict(kind='wellformed', main=codec, boundary=True,
+                                   calls=[['write_preamble', sl.S(lead), None, {'i': ind}, None, None], ['new_change', None],
+                                          ['new_file', None], ['write_meta', {'d': {'k': 1}}, None, 'omitted']])
+                big = [('utf-8', 'x' * 65535 + '\r\ntail\r\n', None), ('utf-8', 'x' * 65535 + '\r\ntail\r\n', sl.S('dos')),
+                       ('utf-16-le', 'x' * 32767 + '\r\ntail\r\n', None), ('utf-8', 'x' * 65534 + '\r\ntail', sl.S('dos')),
+                       ('utf-8', 'y' * 8190 + '\r\na\nb\r\n', None), ('utf-8', 'y' * 8191 + '\r\n a\n b\r\n', None),
+                       ('utf-8', 'z' * 65535 + '\n' + 'w' * 65535 + '\n', None)]
+                for codec, t, le in big:
+                    yield dict(kind='wellformed', main=codec, boundary=True,
+                               calls=[['write_preamble', sl.S(t), None, {'i': 2}, le, None], ['new_change', None],
+                                      ['new_file', None], ['write_meta', {'d': {'k': 1}}, None, 'omitted']])
             if i % 20 == 0:
                 # first lines whose ENCODED form contains the newline bytes at a non-character boundary, with no declared
                 # line endings: the kind is detected on the text, never on the encoded bytes
@@ -296,6 +313,31 @@ class Calls(Family):
         # nearest declared encoding (own, else the innermost enclosing container that declares one, else the main one)
         for i in range(300 if tier == 'quick' else 6000):
             yield gen_enc_accept(rng)
+        # stateful (modal) codecs: a REJECTED text call must leave nothing behind in the writer, so the calls accepted
+        # afterwards write what a writer that never saw the rejected call writes (the model does not execute these
+        # codecs and discards the comparison; the atomicity oracle runs on the implementation)
+        for codec, good, bad in [('iso2022_jp', '\u3042\u3044\n', '\u3042\u20ac\n'), ('iso2022_jp_2', '\u3042\n', '\u3042\U0001f600\n'),
+                                 ('hz', '\u4f60\u597d\n', '\u4f60\u20ac\n'), ('iso2022_kr', '\ud55c\n', '\ud55c\U0001f600\n'),
+                                 ('shift_jis', '\u3042\n', '\u3042\u20ac\n')]:
+            try:
+                good.encode(codec)
+                try:
+                    bad.encode(codec)
+                    continue            # the "bad" text is encodable after all in this Python: not a rejection case
+                except UnicodeEncodeError:
+                    pass
+            except (LookupError, UnicodeError):
+                continue
+            for own in (False, True):
+                enc = sl.S(codec) if own else None
+                main = 'utf-8' if own else codec
+                yield dict(kind='modal', main=main, must=[0, 3],
+                           calls=[['write_preamble', sl.S(bad), enc, 'omitted', None, None],
+                                  ['write_preamble', sl.S(good), enc, 'omitted', None, None],
+                                  ['new_change', enc],
+                                  ['write_preamble', sl.S(bad), None if not own else enc, 'omitted', None, None],
+                                  ['write_preamble', sl.S(good), None if not own else enc, {'i': 2}, None, None],
+                                  ['new_file', None], ['write_meta', {'d': {'k': good}}, None, 'omitted']])
 
     def _impl(self, c):
         if '_impl' not in c:
@@ -424,6 +466,8 @@ class Foreign(Family):
                     yield dict(kind='defect', file=gf.inject(f, k, d, rng), base=f, at=k, defect=d)
             if prop_id in ('C03', 'ALL') and i % 50 == 0:
                 yield dict(kind='misaligned', file=gf.misaligned_file(rng))
+            if i % 40 == 0:
+                yield dict(kind='wellformed', file=gf.longline_file(rng))
             if prop_id in ('C12', 'ALL'):
                 for _ in range(2):
                     g, added = gf.add_unknown_options(f, rng)
@@ -1308,7 +1352,8 @@ class Fuzz(Family):
         # contract is still checked on the implementation)
         for codec in ['punycode', 'idna', 'utf-7', 'cp037', 'undefined', 'rot13', 'hex', 'base64', 'unicode_escape',
                       'iso2022_jp', 'hz', 'cp1252', 'shift_jis', 'utf-16-be', 'mbcs', 'oem', 'string_escape']:
-            for body in [b'Fix the bug.\n', b'xn--a.example.com\n', b'\xff\xfe\n', b'+AOk-\n', b'a\n', b'{"a": 1}\n', b'~{\n']:
+            for body in [b'Fix the bug.\n', b'xn--a.example.com\n', b'\xff\xfe\n', b'+AOk-\n', b'a\n', b'{"a": 1}\n', b'~{\n',
+                         b'ab~\n', b'~\n', b'\x1b$B\n', b'a\\\n']:
                 for sec in ('.preamble', '.meta'):
                     yield dict(kind='exotic-codec', data=hx(b'#diffx: version=1.0, encoding=utf-8\n#%s: encoding=%s, length=%d\n'
                                                             % (sec.encode(), codec.encode(), len(body)) + body))
@@ -1335,6 +1380,15 @@ class Fuzz(Family):
                             opts = [(k, v) for k, v in opts if k != key] + [(key, val)]
                         out.append(gf.render_header(sid, opts, False) + (body or b''))
                     yield dict(kind='option-grid', data=hx(b''.join(out)))
+        # bytes that END with the encoded newline while the DECODED text does not end with the newline: a byte order mark
+        # that announces the other byte order, and variants
+        for enc, body in [(b'utf-16', b'\xfe\xff\x00a\x0a\x00'), (b'utf-16', b'\xfe\xff\x00a\x00\x0a\x0a\x00'),
+                          (b'utf-32', b'\x00\x00\xfe\xff\x00\x00\x00a\x0a\x00\x00\x00'),
+                          (b'utf-16', b'\xff\xfea\x00\x0a\x00'), (b'utf-8-sig', b'\xef\xbb\xbf\n')]:
+            for sec in (b'.preamble', b'.meta'):
+                yield dict(kind='bom-order', data=hx(b'#diffx: version=1.0, encoding=utf-8\n#%s: encoding=%s, length=%d\n'
+                                                    % (sec, enc, len(body)) + body))
+            yield dict(kind='bom-order', data=hx(b'#diffx: version=1.0, encoding=%s\n#.preamble: length=%d\n' % (enc, len(body)) + body))
         # deep JSON
         deep = b'[' * 100000 + b']' * 100000 + b'\n'
         yield dict(kind='deep-json', data=hx(b'#diffx: version=1.0, encoding=utf-8\n#.meta: length=%d\n' % len(deep) + deep))
